@@ -52,7 +52,8 @@ PredOuts(r) ==
                  THEN [i \in DOMAIN op.srcs[1] |-> op.cmap[op.srcs[1][i]]] ELSE op.out>>)
     ELSE IF IsCollectOp(op.name) \/ IsSerdeOp(op.name) THEN <<op.got>>
     ELSE LET e == Sem(op.name, op.srcs, op.arg, op.elems) IN [i \in DOMAIN e.outs |-> e.outs[i].items]
-PredVals == IF IsCbOp(op.name) \/ IsCollectOp(op.name) \/ IsSerdeOp(op.name) THEN <<>>
+PredVals == IF op.name \in SearchByRef THEN op.out          \* the element find / rfind hands back
+            ELSE IF IsCbOp(op.name) \/ IsCollectOp(op.name) \/ IsSerdeOp(op.name) THEN <<>>
             ELSE Sem(op.name, op.srcs, op.arg, op.elems).vals
 ZObs(obs) == [i \in DOMAIN obs |->
                 IF obs[i].h \in DOMAIN pool THEN [obs[i] EXCEPT !.items = ZItems(@, pool[obs[i].h].items)] ELSE obs[i]]
